@@ -91,6 +91,9 @@ def concretize(it, v, what="value"):
     if isinstance(v, int):
         return v
     t = v.t
+    kv = it.path.known.get(t.id)
+    if kv is not None:
+        return kv
     if t.lo is None or t.hi is None or t.hi - t.lo > 256:
         raise Unsupported("cannot enumerate symbolic %s %s" % (what, ir.show(t)[:120]))
     vals = list(range(t.lo, t.hi + 1))
